@@ -302,3 +302,6 @@ Proof.
   intros Hb Hn. apply list_ext; [rewrite !subZ_length; reflexivity|]. intros i Hi. unfold len in Hi. rewrite subZ_length in Hi.
   rewrite !nthZ_subZ by lia. apply nthZ_firstn. lia.
 Qed.
+
+Lemma skipn_cons_nth (l : list Z) : forall m, (m < length l)%nat -> skipn m l = nth m l 0 :: skipn (S m) l.
+Proof. induction l as [|e l IH]; intros m Hm; [simpl in Hm; lia|]. destruct m; [reflexivity|]. simpl. apply IH. simpl in Hm. lia. Qed.
